@@ -146,6 +146,15 @@ pub fn classify(compressed: bool, frame: &[u8]) -> Option<(Class, String)> {
     }
 }
 
+/// complete frames (size byte = length) that the codec, called on the frame alone, neither turned into a packet nor removed as a decode
+/// error: they cannot take part in a session, and each one is a violation of the framing contract in its own right
+pub static UNCONSUMED: Mutex<Vec<String>> = Mutex::new(Vec::new());
+/// to be called by every harness that builds sessions from frame pools, before it writes its results
+pub fn report_unconsumed(prop: &str, st: &mut Stats) {
+    let v = UNCONSUMED.lock().unwrap();
+    for f in v.iter().take(3) { st.fail(format!("[{prop}/C04] a complete frame is neither decoded nor removed from the buffer as a decode error (it would be met again by every later read): {f}"), format!("unconsumed {f}")); }
+}
+
 pub struct Frames {
     pub compressed: bool,
     pub frames: Vec<Vec<u8>>,
@@ -157,7 +166,10 @@ impl Frames {
         let mut class = vec![]; let mut rep = vec![]; let mut keep = vec![];
         let mut by_dbg: HashMap<String, usize> = HashMap::new();
         for f in frames {
-            if let Some((c, d)) = classify(compressed, &f) {
+            let announced = if f.is_empty() { 0 } else { f[0] as usize * if compressed { 4 } else { 1 } };
+            let cl = classify(compressed, &f);
+            if cl.is_none() && f.len() >= 4 && announced == f.len() && f.len() <= if compressed { 1020 } else { 255 } { let mut u = UNCONSUMED.lock().unwrap(); if u.len() < 8 { u.push(format!("{} {}", mode_tag(compressed), hex(&f))); } }
+            if let Some((c, d)) = cl {
                 let i = keep.len();
                 let key = if c == Class::Err { format!("ERR{}", hex(&f)) } else { d };
                 let r = *by_dbg.entry(key).or_insert(i);
